@@ -89,6 +89,42 @@ def escByte (x : Nat) : Bytes :=
   if x = 38 then entAmp else if x = 60 then entLt else if x = 62 then entGt
   else if x = 34 then entQuot else if x = 39 then entApos else [x]
 
+theorem replaceByte_cons (c : Nat) (r : Bytes) (x : Nat) (s : Bytes) :
+    replaceByte c r (x :: s) = (if x = c then r else [x]) ++ replaceByte c r s := by
+  simp [replaceByte]
+
+theorem replaceByte_append (c : Nat) (r : Bytes) (a b : Bytes) :
+    replaceByte c r (a ++ b) = replaceByte c r a ++ replaceByte c r b := by
+  simp [replaceByte]
+
+/-- The five successive replacements amount to one pass mapping each byte on its own
+    (also used as the compiled implementation). -/
+theorem htmlEscape_eq (s : Bytes) : htmlEscape s = s.flatMap escByte := by
+  induction s with
+  | nil => rfl
+  | cons x s ih =>
+    unfold htmlEscape at ih ⊢
+    rw [List.flatMap_cons, ← ih]
+    simp only [replaceByte_cons, replaceByte_append]
+    congr 1
+    unfold escByte
+    by_cases h1 : x = 38
+    · subst h1; decide
+    by_cases h2 : x = 60
+    · subst h2; decide
+    by_cases h3 : x = 62
+    · subst h3; decide
+    by_cases h4 : x = 34
+    · subst h4; decide
+    by_cases h5 : x = 39
+    · subst h5; decide
+    simp [h1, h2, h3, h4, h5, replaceByte]
+
+def htmlEscapeFast (s : Bytes) : Bytes := s.flatMap escByte
+
+@[csimp] theorem htmlEscape_eq_fast : @htmlEscape = @htmlEscapeFast := by
+  funext s; exact htmlEscape_eq s
+
 /-- If `s` (the text after a `&`) starts with the body of one of the five entities: the character
     it stands for and the length of the body. -/
 def entityAt (s : Bytes) : Option (Nat × Nat) :=
